@@ -360,5 +360,170 @@ func runC19(o *hx.Out, r *hx.Rand, thorough bool) {
 		}
 		o.Case("generate", fmt.Sprintf("Gen %s %s %s %s %s", hx.B(legacy), hx.B(legacyNames), hx.List(svcTerms), hx.B(valid), hx.List(obsTerms)), desc)
 	}
+	multiFile(o, r, bin, thorough)
 	o.Shard = 100
+}
+
+// multiFile: one plugin invocation for several files -- some of them without services, listed in any order,
+// services that use message types of another file, Go packages given by go_package or by import_path.
+// Every file that declares services gets its registrations and stubs, in valid Go that imports only packages
+// some file of the request maps to.
+func multiFile(o *hx.Out, r *hx.Rand, bin string, thorough bool) {
+	names := plugins.GoNames{}
+	str := func(s string) *string { return &s }
+	n := 24
+	if thorough {
+		n = 200
+	}
+	var emptyDep *descriptorpb.FileDescriptorProto
+	var deps []*descriptorpb.FileDescriptorProto
+	fileClosure(grpchantesting.File_test_proto, map[string]bool{}, &deps)
+	for _, d := range deps {
+		if d.GetName() == "google/protobuf/empty.proto" {
+			emptyDep = d
+		}
+	}
+	for it := 0; it < n; it++ {
+		useImportPath := r.Chance(40)
+		samePkg := useImportPath || r.Chance(50)
+		dir := r.Pick([]string{"", "api/", "acme/api/v1/"})
+		mk := func(base, pkg, gopkg string) *descriptorpb.FileDescriptorProto {
+			f := &descriptorpb.FileDescriptorProto{Name: str(dir + base), Syntax: str("proto3"), Package: str(pkg)}
+			if !useImportPath {
+				f.Options = &descriptorpb.FileOptions{GoPackage: str(gopkg)}
+			}
+			return f
+		}
+		pkgA, pkgB := "acme.api", "acme.api"
+		goA, goB := "example.com/gen/api", "example.com/gen/api"
+		if !samePkg {
+			pkgB, goB = "acme.orders", "example.com/gen/orders"
+		}
+		common := mk("common.proto", pkgA, goA)
+		common.MessageType = []*descriptorpb.DescriptorProto{{Name: str("Req")}, {Name: str("Resp")}}
+		withSvc := func(f *descriptorpb.FileDescriptorProto, pkg string, svcs []string) (terms []string, descs []interface{}) {
+			f.Dependency = []string{common.GetName(), "google/protobuf/empty.proto"}
+			f.MessageType = []*descriptorpb.DescriptorProto{{Name: str("Local" + names.CamelCase(svcs[0]))}}
+			for _, sn := range svcs {
+				sd := &descriptorpb.ServiceDescriptorProto{Name: str(sn)}
+				var mTerms []string
+				for m := 0; m < r.Range(1, 4); m++ {
+					mn := []string{"Get", "Watch", "put_item", "Chat", "Sync"}[(m+r.Intn(2))%5]
+					dup := false
+					for _, x := range sd.Method {
+						dup = dup || x.GetName() == mn
+					}
+					if dup {
+						continue
+					}
+					cs, ss := r.Chance(35), r.Chance(35)
+					in := "." + pkgA + ".Req"
+					if r.Chance(25) {
+						in = "." + pkg + ".Local" + names.CamelCase(svcs[0])
+					}
+					sd.Method = append(sd.Method, &descriptorpb.MethodDescriptorProto{Name: str(mn), InputType: str(in), OutputType: str("." + pkgA + ".Resp"),
+						ClientStreaming: proto.Bool(cs), ServerStreaming: proto.Bool(ss)})
+					mTerms = append(mTerms, fmt.Sprintf("{| me_name := %s; me_cs := %s; me_ss := %s |}", hx.Str(mn), hx.B(cs), hx.B(ss)))
+				}
+				f.Service = append(f.Service, sd)
+				terms = append(terms, fmt.Sprintf("{| sv_fq := %s; sv_go := %s; sv_ms := %s |}", hx.Str(pkg+"."+sn), hx.Str(names.CamelCase(sn)), hx.List(mTerms)))
+				descs = append(descs, map[string]interface{}{"service": pkg + "." + sn, "methods": len(sd.Method)})
+			}
+			return
+		}
+		orders := mk("orders.proto", pkgB, goB)
+		oTerms, oDesc := withSvc(orders, pkgB, []string{"Orders", "Inventory"}[:r.Range(1, 2)])
+		users := mk("users.proto", pkgA, goA)
+		uTerms, uDesc := withSvc(users, pkgA, []string{"Users"})
+		gen := []*descriptorpb.FileDescriptorProto{common, orders, users}
+		// protoc lists the files to generate in command-line order: any order
+		order := [][]int{{0, 1, 2}, {1, 0, 2}, {1, 2, 0}, {2, 1, 0}, {0, 2, 1}, {1, 2}, {2, 1}}[r.Intn(7)]
+		if useImportPath && len(order) < 3 {
+			// import_path names the package of the files being generated: a file that is only imported would
+			// need a go_package of its own
+			order = []int{1, 2, 0}
+		}
+		var toGen []string
+		for _, i := range order {
+			toGen = append(toGen, gen[i].GetName())
+		}
+		legacy := r.Chance(75)
+		var params []string
+		if legacy {
+			params = append(params, "legacy_stubs")
+		}
+		if useImportPath {
+			params = append(params, "import_path=example.com/gen/api")
+		}
+		param := strings.Join(params, ",")
+		creq := &pluginpb.CodeGeneratorRequest{FileToGenerate: toGen, ProtoFile: []*descriptorpb.FileDescriptorProto{emptyDep, common, orders, users}}
+		if param != "" {
+			creq.Parameter = &param
+		}
+		resp, err := runPlugin(bin, creq)
+		allowed := map[string]bool{"context": true, "google.golang.org/grpc": true, "github.com/fullstorydev/grpchan": true,
+			"google.golang.org/protobuf/types/known/emptypb": true, "github.com/golang/protobuf/ptypes/empty": true, goA: true, goB: true}
+		for fi, f := range []struct {
+			fd    *descriptorpb.FileDescriptorProto
+			terms []string
+			descs []interface{}
+		}{{orders, oTerms, oDesc}, {users, uTerms, uDesc}} {
+			desc := map[string]interface{}{"request_files_to_generate": toGen, "file": f.fd.GetName(), "parameter": param, "services": f.descs, "same_go_package": samePkg}
+			valid := true
+			var obs []*obsSvc
+			switch {
+			case err != nil:
+				valid, desc["error"] = false, err.Error()
+			case resp.Error != nil:
+				valid, desc["error"] = false, *resp.Error
+			default:
+				first := "func RegisterHandler" + names.CamelCase(f.fd.Service[0].GetName()) + "("
+				for _, out := range resp.File {
+					if !strings.Contains(out.GetContent(), first) {
+						continue
+					}
+					var perr error
+					obs, perr = extractGenerated(out.GetContent())
+					if perr != nil {
+						valid, desc["error"] = false, "generated code is not valid Go: "+perr.Error()
+					} else if bad := foreignImports(out.GetContent(), allowed); len(bad) > 0 {
+						valid, desc["error"] = false, fmt.Sprintf("generated code imports %q, a package no file of the request maps to", bad)
+					}
+				}
+			}
+			if !valid {
+				o.Violate("the plugin failed or emitted Go that cannot compile", desc, desc["error"], nil)
+			}
+			var obsTerms []string
+			for _, s := range obs {
+				var st []string
+				for _, x := range s.stubs {
+					idx := "None"
+					if x.index != nil {
+						idx = fmt.Sprintf("(Some %d)", *x.index)
+					}
+					st = append(st, fmt.Sprintf("{| ob_path := %s; ob_shape := %s; ob_index := %s; ob_desc := %s |}", hx.Str(x.path), hx.Z(int64(x.shape)), idx, hx.Str(x.desc)))
+				}
+				obsTerms = append(obsTerms, fmt.Sprintf("{| ob_register := %s; ob_reg_desc := %s; ob_stubs := %s |}", hx.Str(s.register), hx.Str(s.regDesc), hx.List(st)))
+			}
+			_ = fi
+			o.Case("generate_multi", fmt.Sprintf("Gen %s false %s %s %s", hx.B(legacy), hx.List(f.terms), hx.B(valid), hx.List(obsTerms)), desc)
+		}
+	}
+}
+
+// foreignImports lists the imports of a generated file that are not in the allowed set
+func foreignImports(src string, allowed map[string]bool) (bad []string) {
+	fset := token.NewFileSet()
+	f, err := parser.ParseFile(fset, "gen.go", src, parser.ImportsOnly)
+	if err != nil {
+		return nil
+	}
+	for _, im := range f.Imports {
+		p := strings.Trim(im.Path.Value, "\"")
+		if !allowed[p] {
+			bad = append(bad, p)
+		}
+	}
+	return
 }
